@@ -206,8 +206,8 @@ Definition il_tikv (variant : N) : il_obs :=
       else il_view true ROk (t_apply s1 p)
   end.
 
-(* Badger: serialisable snapshot isolation: the commit is refused (badger.ErrConflict, handed on as it is) when a key
-   the transaction has READ was committed meanwhile *)
+(* Badger: serialisable snapshot isolation: the commit is refused (badger.ErrConflict, which batch.Commit turns into
+   ErrCASFailed) when a key the transaction has READ was committed meanwhile *)
 Definition il_badger (variant : N) : il_obs :=
   let '(s0, _, _) := b_batch (mk_bstate [] 0) (il_setup variant) in
   let '(s1, _, _) := b_batch s0 il_b2 in
@@ -215,7 +215,7 @@ Definition il_badger (variant : N) : il_obs :=
   | inr (c, _) => il_view true c (b_store s1)
   | inl p =>
       if existsb (fun o => bop_reads o && touches (map bop_key il_b2) (bop_key o)) (il_b1 variant)
-      then il_view true ROther (b_store s1)
+      then il_view true RCond (b_store s1)
       else il_view true ROk (b_store (b_commit s1 p))
   end.
 
@@ -232,14 +232,13 @@ Definition il_obs_eqb (x y : il_obs) : bool :=
 
 (* the property on the observation: the outcome is that of some serial order of the two batches.  If batch 2 was
    acknowledged first, batch 1's guard is false when it commits: it must report a failed condition and leave nothing
-   behind.  Badger hands on its own conflict error instead (finding C11-F4, code 4). *)
+   behind. *)
 Definition il_oracle (e : eng) (x : il_obs) : option N :=
   let '(b2first, c1, other, guard2) := x in
   if b2first then
     if negb other && guard2 then
       match c1 with
       | RCond => None
-      | ROther => match e with EBadger | EWrapBadger => Some 4 | _ => Some 0 end
       | _ => Some 0
       end
     else Some 0
